@@ -161,6 +161,8 @@ def _normalizer(model, pm, node, name, prune=True, cls=None):
     if priv:
         nz.inliner = Inlining(allf, SHAPES, known, True, gl, lambda n_: n_ in priv and n_ != name)
         nz.inliner.self_methods = meths
+        nz.inliner.module_aliases = set(nz.module_aliases)
+        nz.inliner.attr_shapes = dict(nz.attr_shapes)
         nz.self_methods = meths
     return nz
 
